@@ -131,3 +131,18 @@ def nontrivial(case, impl):
         kinds = "".join(o.split()[0][0] + (o.split()[2][0] if o.startswith("read") else "") for o in case.ops[1:])
         return hash((n, I, tuple(o for o in case.ops if o.startswith("view")), kinds))
     return None
+
+
+META = {
+    "technique": "Lean 4 proof (induction over histories, leap-array refinement invariant) + differential correspondence model/impl",
+    "level_text": ("Theorems in lean/Sentinel/Props/C08.lean, kernel-checked for every geometry, every monotone history and every read time: "
+                   "the code-shaped view read (deprecation test, start range, filter, sum) equals the filter-and-sum reference over the history for any "
+                   "commutative-monoid payload (counters, min RT, peak concurrency), incl. the previous-window read under Iv+Lv<=n*L, no recording is "
+                   "dropped, and CheckValidityForReuseStatistic is exactly the tiling condition. The model is tied to core/stat/base by running the "
+                   "same op files through the real package (virtual clock) and the compiled Lean driver and comparing every observation; the spec "
+                   "(reference over the history) is evaluated against the implementation directly, so a disagreement is reported with a shrunk replay."),
+    "level_note": ("Trusted: Lean kernel; axioms propext/Classical.choice/Quot.sound; Go harness, virtual util.Clock, canonical printing (NaN sign dropped, "
+                   "all-zero per-second items dropped); float division for QPS/AvgRT instantiated with Lean Float (same binary64 op). Modelled not "
+                   "verified: sequential use only (concurrency is C09), int64 counters as naturals, BaseStatNode wrappers."),
+    "design_ref": "DESIGN.md 6.C08",
+}
